@@ -200,6 +200,17 @@ def work_items(tier, flt):
             elif tier == "thorough" or dflt <= 200:
                 items.append({"kind": "time", "env": env, "entry": entry, "T": dflt, "T_arg": dflt,
                               "n": max(2, int((3 if tier == "quick" else 10) * scale)), "cost": 4 + dflt / 100})
+    # coincidence cases (see C03): a constructive episode that ends by completion on step k under a generous limit is
+    # replayed with time_limit = k and k + 1: step k must then be LAST in both (limit reached / game over)
+    from vf.props import C03 as _c03
+
+    for env in envs.select_envs([e for e in _c03.COINCIDE if e in TIME_ENVS], flt):
+        es = _c03.COINCIDE[env][:1] if tier == "quick" else _c03.COINCIDE[env]
+        for e in es:
+            if flt and flt.get("entry") and e not in flt["entry"]:
+                continue
+            items.append({"kind": "coincide", "env": env, "entry": e, "n": max(2, int((6 if tier == "quick" else 30) * scale)),
+                          "cost": 3})
     for env in envs.select_envs(HORIZON_ENVS, flt):
         for entry in envs.tier_entries(env, tier, flt):
             items.append({"kind": "horizon", "env": env, "entry": entry,
@@ -214,7 +225,66 @@ def _resolve_T(item):
     return int(item["T"])
 
 
+def run_coincide(item, seed):
+    from vf.props import C03 as _c03
+
+    ctx = Ctx(PROPERTY, item)
+    env, entry = item["env"], item["entry"]
+    with ctx.guard(env, {"env": env, "entry": entry, "stage": "construct", "item": item}):
+        big = envs.bundle(env, entry, time_limit=_c03.BIG_T)
+        solve_fn = episodes.solve_fn_for(big)
+        seen_k = set()
+
+        def one(key, plan):
+            st_, ts = big.reset(envs.make_key(key))
+            acts, k = [], None
+            for i in range(60):
+                mode, r = plan["steps"][i % len(plan["steps"])]
+                a = episodes.solved_action(big, solve_fn, episodes.host(st_), r) if mode == "solve" else None
+                if a is None:
+                    a = big.pick_action(st_, ts, "legal" if mode == "solve" else mode, r)
+                acts.append(np.asarray(a))
+                st_, ts = big.step(st_, a)
+                if int(ts.step_type) == episodes.LAST:
+                    k = i + 1
+                    break
+            ctx.count("coincide_attempts")
+            if k is None or k >= _c03.BIG_T or (len(seen_k) >= 5 and k not in seen_k):
+                return
+            seen_k.add(k)
+            for T in (k, k + 1):
+                b = envs.bundle(env, entry, time_limit=T)
+                case = {"kind": "coincide", "env": env, "entry": entry, "T": T, "key": list(key),
+                        "actions": [a.tolist() for a in acts]}
+                with ctx.guard(env, case, size=10**6):
+                    s2, t2 = b.reset(envs.make_key(key))
+                    types = []
+                    for a in acts:
+                        s2, t2 = b.step(s2, a)
+                        types.append(int(t2.step_type))
+                        if types[-1] == episodes.LAST:
+                            break
+                    ctx.evals()
+                    ctx.nontrivial(env, entry, "coincide", list(key), T)
+                    if episodes.LAST not in types:
+                        ctx.fail("time_limit.not_last_at_T", env, "no LAST although the game is over and the time limit is reached",
+                                 f"time_limit={T}, completion on step {k}: step types {types[-6:]} [entry={entry} key={list(key)}]",
+                                 case, size=len(acts))
+                    elif types.index(episodes.LAST) + 1 != k:
+                        ctx.fail("time_limit.early", env, "LAST before the completion / limit step of the coincidence case",
+                                 f"time_limit={T}, completion on step {k}: LAST at step {types.index(episodes.LAST) + 1}", case,
+                                 size=len(acts))
+            ctx.count("coincide_cases")
+
+        hyp.drive({"key": episodes.keys(),
+                   "plan": episodes.plans(max_len=30, min_len=6, styles=("solve", "solveish", "solve", "legal"))},
+                  one, seed, item["n"])
+    return ctx.result()
+
+
 def run_item(item, seed, tier):
+    if item.get("kind") == "coincide":
+        return run_coincide(item, seed)
     ctx = Ctx(PROPERTY, item)
     env, entry = item["env"], item["entry"]
     with ctx.guard(env, {"env": env, "entry": entry, "stage": "construct", "item": item}):
@@ -304,7 +374,19 @@ def replay(case):
         run = run_item(case["item"], 1, "quick")
         return run["failures"]
     with ctx.guard(env, case):
-        if case["kind"] == "time":
+        if case["kind"] == "coincide":
+            b = envs.bundle(env, entry, time_limit=case["T"])
+            s2, t2 = b.reset(envs.make_key(case["key"]))
+            types = []
+            for a in case["actions"]:
+                s2, t2 = b.step(s2, b.to_action(a))
+                types.append(int(t2.step_type))
+                if types[-1] == episodes.LAST:
+                    break
+            if episodes.LAST not in types:
+                ctx.fail("time_limit.not_last_at_T", env, "no LAST although the game is over and the time limit is reached",
+                         f"time_limit={case['T']}: step types {types[-6:]}", case)
+        elif case["kind"] == "time":
             tl, ts_, acts, expl = twin(ctx, env, entry, case["T"], case["T_arg"], case["key"], actions=case["actions"],
                                        extra=case.get("extra"))
             for o, s, m in judge(env, case["T"], tl, ts_, expl)[0]:
